@@ -329,27 +329,33 @@ class Catalogue(Relation):
             return      # meta=None / visual=None is the documented default
         tag = f'{cls}.{param} <- {kind}:{name} ({how})'
         ctx.label('kind:' + kind, 'how:' + how)
+        # (every attempt is made more than once: being refused once must not
+        # make the same value acceptable the next time)
         if how == 'construct':
-            try:
-                obj = construct_with(cls, param, value)
-            except REJECT:
-                pass
-            else:
-                ctx.fail(f'{tag} | invalid value accepted by the constructor',
-                         f'{value!r} -> {obj!r}')
+            for attempt in ('', ' at the second attempt'):
+                try:
+                    obj = construct_with(cls, param, value)
+                except REJECT:
+                    pass
+                else:
+                    ctx.fail(f'{tag} | invalid value accepted by the '
+                             f'constructor{attempt}', f'{value!r} -> {obj!r}')
         else:
             reg = baseline(cls)
             before = fp(reg)
-            try:
-                setattr(reg, param, value)
-            except REJECT:
-                pass
-            except AttributeError:
-                if kind != 'operator':
-                    raise
-            else:
-                ctx.fail(f'{tag} | invalid value accepted on assignment',
-                         f'{value!r}; now {getattr(reg, param)!r}')
+            for attempt in ('', ' at the second attempt',
+                            ' at the third attempt'):
+                try:
+                    setattr(reg, param, value)
+                except REJECT:
+                    pass
+                except AttributeError:
+                    if kind != 'operator':
+                        raise
+                else:
+                    ctx.fail(f'{tag} | invalid value accepted on '
+                             f'assignment{attempt}',
+                             f'{value!r}; now {getattr(reg, param)!r}')
             ctx.check(fp(reg) == before,
                       f'{tag} | rejected assignment changed the object')
             # deletion of shape parameters is refused
